@@ -2,6 +2,11 @@ package lssim
 
 import (
 	"fmt"
+	"regexp"
+	"runtime"
+	"sort"
+	"strconv"
+	"strings"
 	"time"
 )
 
@@ -87,5 +92,99 @@ func (m *MonCancel) StepDone(f *Fleet, actor Actor) {
 				fmt.Sprintf("%s incarnation %d was cancelled at %s but Sync has not returned %s later: %s", n.Name, req.inc, req.at, f.Sim.Now()-req.at, why)})
 			delete(m.pending, n)
 		}
+	}
+}
+
+// ---------------------------------------------------------------------------
+// C17: nothing blocks forever. At the end of a fleet run every instance is
+// stopped gracefully (context cancelled) and every goroutine is run until it
+// ends. Whatever is then still alive inside repository code is blocked for
+// good: all contexts are cancelled, nobody is parked at a yield point, the
+// bubble's other goroutines are durably blocked.
+// ---------------------------------------------------------------------------
+
+var repoFrame = regexp.MustCompile(`(?m)^(github\.com/PowerDNS/lightningstream/[^\s(]+(?:\([^)]*\))?[^\s(]*)\(`)
+
+// blockedRepoGoroutines returns, for every goroutine that has a frame in
+// repository code (other than the verif hooks), its state and innermost
+// repository function.
+func blockedRepoGoroutines(gids map[uint64]string) []string {
+	buf := make([]byte, 4<<20)
+	n := runtime.Stack(buf, true)
+	var out []string
+	for _, g := range strings.Split(string(buf[:n]), "\n\n") {
+		hdr := goroutineHdr.FindStringSubmatch(g)
+		if hdr == nil {
+			continue
+		}
+		gid, _ := strconv.ParseUint(hdr[1], 10, 64)
+		task, mine := gids[gid]
+		if !mine {
+			continue // not a goroutine of this run's instances
+		}
+		fn := ""
+		for _, m := range repoFrame.FindAllStringSubmatch(g, -1) {
+			if strings.Contains(m[1], "/utils/verifhook.") {
+				continue
+			}
+			fn = m[1]
+			break
+		}
+		if fn == "" {
+			continue
+		}
+		fn = strings.TrimPrefix(fn, "github.com/PowerDNS/lightningstream/")
+		out = append(out, fmt.Sprintf("%s [%s] in %s", task, strings.SplitN(hdr[2], ",", 2)[0], fn))
+	}
+	sort.Strings(out)
+	return out
+}
+
+// wedgeCheck stops everything gracefully and reports goroutines that never end.
+func (f *Fleet) wedgeCheck() {
+	if f.Failed() {
+		return
+	}
+	// Only incarnations that are stopped gracefully here are judged: a
+	// crashed one was killed at its yield points, and what its surviving
+	// goroutines wait for (a token held by a killed goroutine) died with the
+	// simulated process.
+	final := map[*Node]int{}
+	for _, n := range f.Nodes {
+		if n.Running {
+			f.Sim.Logf("  node %s final cancel", n.Name)
+			final[n] = n.Inc
+			n.Cancel()
+		}
+	}
+	for i := 0; ; i++ {
+		ps := f.Sim.Quiesce()
+		if len(ps) == 0 {
+			break
+		}
+		if i > 20000 {
+			f.Violate(Violation{"C17", "nothing-blocks-forever", "still-running-after-cancel",
+				fmt.Sprintf("20000 scheduler steps after every context was cancelled, %s is still passing yield points (at %s)", ps[0].ID, ps[0].Point())})
+			return
+		}
+		sort.Slice(ps, func(a, b int) bool { return ps[a].ID < ps[b].ID })
+		f.Sim.Release(ps[0])
+	}
+	f.Sim.Probe("wedge-check")
+	gids := map[uint64]string{}
+	for _, n := range f.Nodes {
+		for _, t := range f.Sim.TasksOf(n) {
+			if inc, ok := final[n]; ok && t.Inc == inc {
+				gids[t.gid] = t.ID
+			}
+		}
+	}
+	if bl := blockedRepoGoroutines(gids); len(bl) > 0 {
+		sig := bl[0]
+		if i := strings.Index(sig, " in "); i >= 0 {
+			sig = sig[i+4:]
+		}
+		f.Violate(Violation{"C17", "nothing-blocks-forever", "blocked@" + sig,
+			fmt.Sprintf("after every instance was cancelled and every goroutine was run until it ended or blocked, %d goroutine(s) remain blocked in repository code: %s", len(bl), strings.Join(bl, "; "))})
 	}
 }
